@@ -32,11 +32,13 @@ struct Inst {
     // object-lifetime events inside the stream (derived from fseed): the processor is replaced by a COPY of itself, or
     // forked into original + copy that both continue; a call of invalid shape is offered and must be rejected cleanly
     int64_t copy_at{-1};
-    int copy_mode{0};   // 0: continue with the copy, drop the original; 1: both continue
+    int copy_mode{0};   // 0: continue with the copy, drop the original; 1: both continue; 2: move-constructed successor; 3: copy-assigned over a used object
     int64_t bad_at{-1};
     std::unique_ptr<Proc> fork;
     std::vector<std::vector<double>> fork_ch;
     int copies{0};
+    int moved{0};
+    int assigned{0};
     int rejected{0};
 };
 
@@ -308,7 +310,10 @@ Result exec(const Plan& pl) {
                 const int64_t nf = int64_t(in->frames.size());
                 if (nf >= 2 && hz % 5 == 0) {
                     in->copy_at = 1 + int64_t((hz >> 8) % uint64_t(nf - 1));
-                    in->copy_mode = in->proc->value_copy ? int((hz >> 40) & 1) : 0;
+                    in->copy_mode = int((hz >> 40) & 3);
+                    if (!in->proc->value_copy && in->copy_mode == 1) {
+                        in->copy_mode = 0;
+                    }
                 }
                 if (nf >= 2 && hz % 7 == 0) {
                     in->bad_at = 1 + int64_t((hz >> 20) % uint64_t(nf - 1));
@@ -348,10 +353,33 @@ Result exec(const Plan& pl) {
             }
             if (int64_t(in->next) == in->copy_at && in->error.empty()) {
                 set_cur_opf("C06 %s copy before frame %zu", proc_name(in->spec.kind), in->next);
-                std::unique_ptr<Proc> c = in->proc->clone();
+                std::unique_ptr<Proc> c;
+                if (in->copy_mode == 2) {
+                    c = in->proc->move_clone();   // state taken over by move construction; the moved-from object is destroyed
+                    in->moved += (c != nullptr);
+                } else if (in->copy_mode == 3) {
+                    // copy ASSIGNMENT over a used object of the same configuration: everything it held must be replaced
+                    try {
+                        std::unique_ptr<Proc> fresh = make_proc(in->spec);
+                        std::vector<std::vector<double>> scratch(size_t(fresh->nch));
+                        const int pre = std::min<int64_t>(int64_t(in->n / size_t(fresh->granule)), 1 + int64_t(in->fseed % 7)) * fresh->granule;
+                        if (pre > 0) {
+                            fresh->call(in->input.data(), pre, scratch);
+                        }
+                        if (fresh->assign_from(*in->proc)) {
+                            c = std::move(fresh);
+                            ++in->assigned;
+                        }
+                    } catch (const std::exception& e) {
+                        in->error = fmt("copy assignment before frame %zu: exception: %s", in->next, e.what());
+                    }
+                }
+                if (!c && in->error.empty()) {
+                    c = in->proc->clone();
+                }
                 if (c) {
                     ++in->copies;
-                    if (in->copy_mode == 0) {
+                    if (in->copy_mode != 1) {
                         in->proc = std::move(c);   // the original is destroyed, the stream continues on the copy
                     } else {
                         in->fork = std::move(c);   // original and copy both continue with the same remaining stream
@@ -444,6 +472,8 @@ Result exec(const Plan& pl) {
             }
         }
         res.inc("fault.copied_mid_stream", in.copies);
+        res.inc("fault.move_constructed_mid_stream", in.moved);
+        res.inc("fault.copy_assigned_over_used_object_mid_stream", in.assigned);
         res.inc("fault.rejected_call_mid_stream", in.rejected);
         if (!in.len_ok) {
             res.fail(std::string("C06:framelen:") + name, std::string(name) + " " + in.len_msg);
